@@ -140,7 +140,10 @@ def catalogue(pt):
         add("EcMultiScalarMul." + c, lambda g=g: pt.EcMultiScalarMul(g(), B("a"), B("b")))
         add("EcSubgroupCheck." + c, lambda g=g: pt.EcSubgroupCheck(g(), B("a")))
         add("EcMapTo." + c, lambda g=g: pt.EcMapTo(g(), B("a")))
-    add("MiMC", lambda: pt.MiMC(pt.MiMCConfigurations.BN254Mp110, B("a")) if hasattr(pt, "MiMCConfigurations") else pt.MiMC(B("a")), "v11")
+    def mimc():
+        from pyteal.ast.mimc import MimcConfig
+        return pt.MiMC(list(MimcConfig)[0], B("a"))
+    add("MiMC", mimc, "v11")
     add("OnlineStake", lambda: pt.OnlineStake(), "v11")
     # ---- transaction fields (every accessor of Txn, Gtxn[1], InnerTxn, Gitxn[1]) and globals
     import inspect
@@ -194,6 +197,15 @@ def catalogue(pt):
     for i in (0, 1, 2, 3, 4, 255):
         add("Arg(%d)" % i, lambda i=i: pt.Arg(i))
     add("Arg(dyn)", lambda: pt.Arg(T.fee()))
+    # immediates beyond the encodable range: PyTeal must refuse them (constructor-time checks)
+    add("Arg(256)", lambda: pt.Arg(256), "out-of-range")
+    add("ScratchVar(256)", lambda: pt.ScratchVar(pt.TealType.uint64, 256).load(), "out-of-range")
+    add("ImportScratchValue(0,256)", lambda: pt.ImportScratchValue(0, 256), "out-of-range")
+    add("ImportScratchValue(256,0)", lambda: pt.ImportScratchValue(256, 0), "out-of-range")
+    add("GeneratedID(256)", lambda: pt.GeneratedID(256), "out-of-range")
+    add("Gtxn[256].fee", lambda: pt.Gtxn[256].fee(), "out-of-range")
+    add("Gitxn[256].fee", lambda: pt.Gitxn[256].fee(), "out-of-range")
+    add("Int(2^64)", lambda: I(2 ** 64), "out-of-range")
     # ---- scratch
     for sid in (0, 1, 128, 255):
         add("ScratchVar(%d)" % sid, lambda sid=sid: (lambda v: pt.Seq(v.store(I(1)), v.load()))(pt.ScratchVar(pt.TealType.uint64, sid)))
@@ -383,6 +395,11 @@ class PG:
         self.vars.append((v, ty))
         return v
 
+    def inits(self):
+        """a store for every variable created so far (a load before any store is a PyTeal error)"""
+        pt = self.pt
+        return [v.store(pt.Int(0) if t == "u" else pt.Bytes("")) for v, t in self.vars]
+
     # ---- leaves
     def ul(self):
         pt, r = self.pt, self.r
@@ -474,7 +491,8 @@ class PG:
         if k == "bytesmath":
             return r.choice([pt.BytesLt, pt.BytesGe, pt.BytesEq])(self.b(d - 1), self.b(d - 1))
         if k == "wide":
-            return pt.WideRatio([self.u(d - 2) for _ in range(r.choice([1, 2, 3]))], [self.u(d - 2) for _ in range(r.choice([2, 1, 2]))])
+            nn, nd = r.choice([(1, 2), (2, 1), (2, 2), (3, 2), (1, 3)])
+            return pt.WideRatio([self.u(d - 2) for _ in range(nn)], [self.u(d - 2) for _ in range(nd)])
         if k == "exu":
             return r.choice([pt.ExtractUint16, pt.ExtractUint32, pt.ExtractUint64])(self.b(d - 1), self.u(d - 1))
         if k == "state":
@@ -690,7 +708,7 @@ def gen_subs_program(pt, seed, version, app):
             kinds = [rng.choice(["au"]) for _ in range(rng.choice([0, 1, 2, 3, 16]) if rng.random() < 0.9 else 20)]
             ret = rng.choice(["u", "n"])
         else:
-            kinds = [rng.choice(["u", "u", "b", "r"]) for _ in range(rng.choice([0, 1, 1, 2, 3, 4]))]
+            kinds = [rng.choice(["u", "u", "b", "r"] if version >= 5 else ["u", "u", "b"]) for _ in range(rng.choice([0, 1, 1, 2, 3, 4]))]
             ret = rng.choice(["n", "u", "u", "b"])
         name = rng.choice(ODD_NAMES) if rng.random() < 0.6 else "sub%d" % k
         names_used.append(name)
@@ -699,7 +717,9 @@ def gen_subs_program(pt, seed, version, app):
     # which subroutines each body may call: any (recursion and mutual recursion allowed) with some probability, else later ones only
     for k, s in enumerate(subs):
         allow_rec = rng.random() < 0.5
-        s["callees"] = [j for j in range(nsub) if allow_rec or j > k]
+        # ABI subroutines are evaluated while the calling expression is built (ReturnedValue.store_into), so a cycle
+        # through one never terminates in PyTeal itself: calls to ABI subroutines always go to a later one
+        s["callees"] = [j for j in range(nsub) if (j > k) or (allow_rec and not subs[j]["abi"])]
 
     def make_wrapper(k, s):
         def body(params):
@@ -714,11 +734,11 @@ def gen_subs_program(pt, seed, version, app):
             stmts = [g.stmt(r2.choice([1, 2, 3]), False) for _ in range(r2.choice([0, 1, 2, 3]))]
             if s["abi"]:
                 fin = outp.set(g.u(2)) if outp is not None else pt.Pop(g.ul())
-                return pt.Seq(*stmts, fin)
+                return pt.Seq(*g.inits(), *stmts, fin)
             if s["ret"] == "n":
-                return pt.Seq(*stmts) if r2.random() < 0.5 else pt.Seq(*stmts, pt.Return())
+                return pt.Seq(*g.inits(), *stmts) if r2.random() < 0.5 else pt.Seq(*g.inits(), *stmts, pt.Return())
             val = g.u(2) if s["ret"] == "u" else g.b(2)
-            return pt.Seq(*stmts, val) if r2.random() < 0.5 else pt.Seq(*stmts, pt.Return(val))
+            return pt.Seq(*g.inits(), *stmts, val) if r2.random() < 0.5 else pt.Seq(*g.inits(), *stmts, pt.Return(val))
         n = len(s["kinds"])
         if s["abi"]:
             names = ["p%d" % i for i in range(n)]
@@ -752,7 +772,7 @@ def gen_subs_program(pt, seed, version, app):
             e = g.call(s, 2)
             body.append(e if s["ret"] == "n" else pt.Pop(e))
     rng.shuffle(body)
-    fin = rng.choice(["approve", "return", "value", "none", "cond"])
+    fin = rng.choice(["approve", "return", "value", "value", "cond"])
     if fin == "approve":
         body.append(pt.Approve())
     elif fin == "return":
@@ -761,7 +781,7 @@ def gen_subs_program(pt, seed, version, app):
         body.append(g.u(2))
     elif fin == "cond":
         body.append(pt.Cond([g.u(1), pt.Approve()], [g.u(1), pt.Reject()]))
-    prog = pt.Seq(*body)
+    prog = pt.Seq(*g.inits(), *body)
     return prog, {"nsub": nsub, "names": names_used, "hist": hist, "fin": fin}
 
 
